@@ -119,7 +119,7 @@ def World.moveAssign (w : World) (s d : Nat) : World :=
       let vd' : Vec := { (vs.setPtr p) with poison := vd.poison || vs.poison }
       { ((w.set d (some vd')).set s (some vs.movedFrom)) with heap := h1, threw := false }
     else if vs.bytes > vd.bytes then
-      match allocPair w.heap w.acfg vd.fixedLoc vs.units vd.S vd.alloc vs.cap with
+      match allocPair w.heap w.acfg vd.fixedLoc vs.bytes vd.S vd.alloc vs.cap with   -- `other.memory_consumption()` bytes passed as a unit count (vector.hpp:497)
       | (h1, none) => { w with heap := h1, threw := true }
       | (h2, some (np, t)) =>
         let r := vd.ptr.moveAssign h2 w.acfg vd.S np
